@@ -218,6 +218,18 @@ def c03(rec, st):
     st["c03.worlds"] += 1
     res = rec.res
     rf, rv = float(res["fun"]), float(res["maxcv"])
+    # the returned *point* is the best one: it must be an evaluated point that produced the returned values
+    if res.get("x") is not None and len(res["x"]) == stmt["n"]:
+        cands, _ = find_eval_of_x(evals, res["x"])
+        if not cands:
+            out.append(Viol("C03", "point", "the returned x %r is not one of the evaluated points" % (list(res["x"]),),
+                            key="x_not_evaluated"))
+            return out
+        if stmt.get("obj") is not None and not any(c.fun is not None and beq(float(c.fun), rf) for c in cands):
+            out.append(Viol("C03", "point", "the returned x was evaluated with objective %r but fun=%r is returned: the "
+                            "returned point is not the point that produced the returned values"
+                            % ([c.fun for c in cands][:2], rf), key="x_values_mismatch"))
+            return out
     feas = [p for p in pairs if p[1] == p[1] and p[1] <= tol and p[0] == p[0]]
     if feas:
         fmin = min(p[0] for p in feas)
@@ -752,6 +764,11 @@ def c20(rec, st):
     stmt = rec.stmt
     cbs = stmt.get("callback")
     if cbs is None:
+        return out
+    if rec.exc is not None and rec.exc["type"] == "TypeError" and rec.exc["frame"].startswith("problem.py"):
+        # the call of the user's callback itself failed: it was not invoked in the convention its signature asks for
+        out.append(Viol("C20", "b", "invoking the %s-style callback raised TypeError: %s" % (cbs["style"], rec.exc["msg"]),
+                        key="convention_exception"))
         return out
     groups, strays = rec.evaluations()
     n = stmt["n"]
